@@ -431,6 +431,13 @@ func (rs *RelationService) CreateTable(r *Relation, tableName string) error {
 		return ErrTableAlreadyExist
 	}
 
+	// refuse a column the catalog cannot describe before anything is changed
+	for _, fd := range r.Fields {
+		if fd.Len > math.MaxInt32 || fd.Len < math.MinInt32 {
+			return ErrIntOutOfRange
+		}
+	}
+
 	pg, err := rs.createPage()
 	if err != nil {
 		return err
